@@ -73,7 +73,7 @@ need(t, "*dest->outsize = dest->bufsize - dest->pub.free_in_buffer;", "jdatadst-
 d = func(tj, "jpeg_mem_dest_tj", "jdatadst-tj.c")
 for st in ["dest->newbuffer = NULL; dest->buffer = NULL;",
            "if (dest->buffer == *outbuffer && *outbuffer != NULL && alloc) reused = TRUE;",
-           "dest->alloc = alloc;", "if (*outbuffer == NULL || *outsize == 0) {",
+           "dest->alloc = alloc;",
            "dest->newbuffer = *outbuffer = (unsigned char *)MALLOC(OUTPUT_BUF_SIZE);",
            "*outsize = OUTPUT_BUF_SIZE;", "} else ERREXIT(cinfo, JERR_BUFFER_SIZE);",
            "dest->pub.next_output_byte = dest->buffer = *outbuffer;",
@@ -82,6 +82,10 @@ for st in ["dest->newbuffer = NULL; dest->buffer = NULL;",
 clears = norm("reused = TRUE; else dest->newbuffer = NULL;") in d
 if not clears and norm("reused = TRUE; dest->outbuffer = outbuffer;") not in d:
     sys.exit("jdatadst-tj.c jpeg_mem_dest_tj: neither the `else dest->newbuffer = NULL` rule nor its absence recognised")
+
+zfix = norm("if (*outbuffer == NULL || (*outsize == 0 && !reused)) {") in d
+if not zfix and norm("if (*outbuffer == NULL || *outsize == 0) {") not in d:
+    sys.exit("jdatadst-tj.c jpeg_mem_dest_tj: condition of the allocation branch not recognised")
 
 # ---- jdatadst.c
 ij_obs = int(define(ij, "OUTPUT_BUF_SIZE", "jdatadst.c"), 0)
@@ -188,6 +192,8 @@ print("Definition tj_output_buf_size : Z := %d." % tj_obs)
 print("Definition tj_growth : Z := %d." % tj_growth)
 print("(* jpeg_mem_dest_tj: `else dest->newbuffer = NULL` when the buffer is not reused (the F2 fix) *)")
 print("Definition tj_clears_newbuffer : bool := %s." % ("true" if clears else "false"))
+print("(* jpeg_mem_dest_tj: the allocation branch is not taken for a reused buffer whose size is given as 0 (the zero-size fix) *)")
+print("Definition tj_zero_size_keeps_reused : bool := %s." % ("true" if zfix else "false"))
 print("Definition ijg_output_buf_size : Z := %d." % ij_obs)
 print("Definition ijg_growth : Z := %d." % ij_growth)
 print("Definition huff_local_bufsize : Z := %d.   (* jchuff.c BUFSIZE = DCTSIZE2 * %s *)" % (huff_bufsize, huff_k))
